@@ -12,6 +12,10 @@ checks["C03"] = dict(
    text="Proof, for all slices/maps over an abstract element type, all pure callbacks and all integer arguments, that 41 collection helpers of fp.go return the value their definition prescribes (index-wise for sequence results; membership/value-wise for map results; filter-like results through ghost index maps that pin the result down to exactly the kept elements in order), that results documented as new are freshly allocated, that inputs are unchanged (every store is proved to hit storage allocated by the call), and that no index, slice bound, nil-map write or division can panic for any count/size/hop. Loops carry inductive invariants; callers (Reject, Tail, Flatten) use callee contracts only.",
    note="Trusted: govc's translation (mathematical integers: overflow of len sums is not modelled; Numeric T is modelled as an integer type; floats excluded), callbacks are deterministic and heap-neutral, element == is a total equivalence (no NaN / non-comparable dynamic types), map iteration visits each key present at loop entry exactly once, append growth model, SMT solvers. SplitEvery and GroupBy are verified for safety, freshness and their guarded corner only (their grouping is not specified); PMap belongs to C16 (n/a).",
    ref="5 C03")
+checks["C06"] = dict(
+   text="Proof that LinkedListQueue is an ideal deque for every finite history: a representation invariant (doubly linked list = ghost sequence nodes[lo..lo+count), free list = pn[plo..plo+nodeCount), both injective and disjoint, end links nil, every list node carries a value) is required and re-established by every method (Offer/Put/Push, Unshift, Poll/Take/Shift, Pop, Peek, Count, Clear, KeepNodePoolCount, ClearNodePool; helpers generateNode/recycleNode by their own contracts, putAllIntoPool inlined with loop invariants), each method's result and new abstract sequence are those of the ideal deque (removals return the head/tail value, ErrQueueIsEmpty/ErrStackIsEmpty exactly when empty, Count = length, all other stored values unchanged), pool maintenance leaves the stored values untouched, and no nil dereference is reachable under the invariant. NewLinkedListQueue establishes the invariant; induction over the history is the usual invariant argument.",
+   note="Trusted: govc's heap model (per-field heaps, references of different Go types never alias), sync.Pool model: Get returns a non-nil node that the queue does not reference and that satisfies the pool invariant (Next/Prev/Val nil) which is proved at every Put; objects that existed at entry have birth <= 0 (assumed for the nodes named by the ghost witnesses); the step from 'invariant preserved by every method' to 'every history' is the standard induction and is not machine-checked; SMT solvers.",
+   ref="5 C06")
 na = {
  "C07": "quantifies over producer/consumer/loader interleavings and includes liveness (nothing stranded, wake-ups not lost); no per-function contract expresses cross-goroutine exactly-once hand-over or eventual loading (DESIGN.md 6).",
  "C09": "every clause is about goroutine scheduling, timers and recovery from panics in other goroutines; the named defect is a lost wake-up (liveness under a fault) (DESIGN.md 6).",
